@@ -8,8 +8,11 @@ the statement (positions of the tree in document order; order of the paths insid
 the files are not prescribed and are compared as sets).  Plus the whole request through `execute` with
 httpx.MockTransport for a sample of the trees: the multipart body is decoded and the same statement checked on the wire.
 """
+import datetime
+import decimal
 import importlib
 import io
+import uuid
 import itertools
 import json
 
@@ -174,6 +177,10 @@ def bounded_wire(tier, seed):
         {"a": 1}, {}, None, {"a": BM.UNSET, "b": None},
         {"file": U[0]}, {"files": [U[0], U[1], U[0]]}, {"in": {"f": U[1], "g": [U[0], None, U[1]]}, "x": 3},
         {"m": model_cls(file=U[2], n=1), "again": U[2]}, {"l": [model_cls(file=U[0], n=2), model_cls(file=U[1], n=3)]},
+        # uploads behind a first list element without upload; leaves that only pydantic's encoder can turn into JSON
+        {"l": [None, U[0]]}, {"items": [{"n": 1}, {"f": U[1]}]},
+        {"file": U[0], "when": datetime.datetime(2020, 1, 2, 3, 4, 5), "day": datetime.date(2020, 1, 2), "amount": decimal.Decimal("1.5")},
+        {"when": datetime.datetime(2020, 1, 2, 3, 4, 5), "ids": [uuid.UUID(int=7)]},
     ]
     for m, k in CLIENTS:
         mod = importlib.import_module(DEP + m)
@@ -209,6 +216,12 @@ def bounded_wire(tier, seed):
                 cases=cases, failed=len(fails), failures=fails)
 
 
+def _jsonable(v):
+    """JSON form of a converted variables tree (datetime / date / Decimal / UUID leaves as pydantic encodes them)"""
+    from pydantic_core import to_jsonable_python
+    return json.loads(json.dumps(v, default=to_jsonable_python))
+
+
 def _check_wire(tree, seen, client):
     bad = []
     if len(seen) != 1:
@@ -222,7 +235,7 @@ def _check_wire(tree, seen, client):
         if req.headers.get("content-type") != "application/json":
             bad.append("json-content-type")
         body = json.loads(req.content)
-        if body != {"query": "query Q { x }", "operationName": "Q", "variables": json.loads(json.dumps(conv))}:
+        if body != {"query": "query Q { x }", "operationName": "Q", "variables": _jsonable(conv)}:
             bad.append("body-carries-exactly-query-operationName-variables")
         return bad
     if not req.headers.get("content-type", "").startswith("multipart/form-data"):
@@ -230,7 +243,7 @@ def _check_wire(tree, seen, client):
     parts = _decode_multipart(req)
     ops = json.loads(parts["operations"]["payload"])
     fmap = json.loads(parts["map"]["payload"])
-    if ops != {"query": "query Q { x }", "operationName": "Q", "variables": json.loads(json.dumps(nulled(conv)))}:
+    if ops != {"query": "query Q { x }", "operationName": "Q", "variables": _jsonable(nulled(conv))}:
         bad.append("operations-has-null-at-every-file-position")
     file_parts = {k: v for k, v in parts.items() if k not in ("operations", "map")}
     distinct = []
